@@ -258,7 +258,11 @@ class ExcFlow(object):
         # suppression keys are written as source text; they are compared in normal form (sa/canon.py) like the trees
         from . import canon as _cn
         self.safe = {}
+        self.safe_divisors = {}      # fq -> [(regex over the divisor's source, why)]: one reason for every spelling of a division
         for (fq, text), why in (safe or {}).items():
+            if text.startswith('DIVISOR ~ '):
+                self.safe_divisors.setdefault(fq, []).append((text[len('DIVISOR ~ '):], why))
+                continue
             nt = _cn.normal_text(text)
             self.safe[(fq, nt.strip() if nt else text)] = why
         self.used_safe = {}
@@ -334,7 +338,10 @@ class ExcFlow(object):
                 out.append((n, 'xml.ParseError', 'ElementTree.fromstring'))
             elif fn in ('codecs.open', 'open'):
                 out.append((n, 'OSError', 'open'))
-            elif fn.endswith('.read') and 'f' == unparse(n.func.value):
+            elif fn.endswith('.read') and isinstance(n.func.value, ast.Name) and any(
+                    isinstance(w, ast.With) and any(it.optional_vars is not None and unparse(it.optional_vars) == n.func.value.id
+                                                    and 'open' in unparse(it.context_expr) for it in w.items)
+                    for w in ast.walk(f.node)):
                 out.append((n, 'UnicodeDecodeError', 'read() of a utf-8 decoded file'))
         elif isinstance(n, ast.BinOp):
             if isinstance(n.op, (ast.Div, ast.FloorDiv, ast.Mod)):
@@ -548,6 +555,12 @@ class ExcFlow(object):
                     if sk in self.safe:
                         self.used_safe[sk] = self.safe[sk]
                         continue
+                    if cls == 'ZeroDivisionError' and isinstance(node, ast.BinOp):
+                        import re as _re
+                        hit = [(rx, why) for rx, why in self.safe_divisors.get(f.fq, ()) if _re.search(rx, unparse(node.right))]
+                        if hit:
+                            self.used_safe[(f.fq, 'DIVISOR ~ ' + hit[0][0])] = hit[0][1]
+                            continue
                     if not isinstance(node, (ast.Raise, ast.Assert)) and self.discharged(f, node, cls, desc):
                         continue
                     if self.caught(f, node, cls) is not None:
